@@ -439,6 +439,7 @@ type State struct {
 	visitedKey string
 	dbg        map[string]Val  // source-level names -> current values (from DebugRef / loop phis)
 	dbgAddr    map[string]Val  // names of variables that live in memory -> their address
+	qfSeen     map[string]bool // rendered quantified assumptions already in the path condition
 	applied    map[string]bool // pure applications whose contract instance was already assumed on this path
 	depth      int
 }
@@ -459,6 +460,10 @@ func (st *State) clone() *State {
 	}
 	for k, v := range st.applied {
 		n.applied[k] = v
+	}
+	n.qfSeen = make(map[string]bool, len(st.qfSeen))
+	for k, v := range st.qfSeen {
+		n.qfSeen[k] = v
 	}
 	for k, v := range st.env {
 		n.env[k] = v
